@@ -8,8 +8,8 @@ use crate::{
         expression::{format_expression, format_var},
         functions::format_function_body,
         general::{
-            format_contained_punctuated_multiline, format_contained_span, format_punctuated,
-            format_symbol, format_token_reference,
+            format_contained_punctuated_multiline, format_contained_span, format_moved_comment,
+            format_punctuated, format_symbol, format_token_reference,
         },
         table::{create_table_braces, format_multiline_table, format_singleline_table, TableType},
         trivia::{
@@ -762,7 +762,7 @@ fn hang_type_info_binop(
             vec![
                 create_newline_trivia(ctx),
                 create_indent_trivia(ctx, shape),
-                x.to_owned(),
+                format_moved_comment(ctx, x, shape),
             ]
         })
         // If there are any comments trailing the BinOp, we need to move them to before the BinOp
@@ -771,14 +771,19 @@ fn hang_type_info_binop(
                 .trailing_trivia()
                 .filter(|token| trivia_is_comment(token))
                 // Prepend a single space beforehand
-                .flat_map(|x| vec![Token::new(TokenType::spaces(1)), x.to_owned()]),
+                .flat_map(|x| {
+                    vec![
+                        Token::new(TokenType::spaces(1)),
+                        format_moved_comment(ctx, x, shape),
+                    ]
+                }),
         )
         // If there are any leading comments to the RHS expression, we need to move them to before the BinOp
         .chain(next_comments.iter().flat_map(|x| {
             vec![
                 create_newline_trivia(ctx),
                 create_indent_trivia(ctx, shape),
-                x.to_owned(),
+                format_moved_comment(ctx, x, shape),
             ]
         }))
         // Create a newline just before the BinOp, and preserve the indentation
@@ -1169,7 +1174,7 @@ fn attempt_assigned_type_tactics(
             .flat_map(|x| {
                 vec![
                     create_indent_trivia(ctx, shape),
-                    x.to_owned(),
+                    format_moved_comment(ctx, x, shape),
                     create_newline_trivia(ctx),
                 ]
             })
